@@ -359,17 +359,31 @@ def _stringy(t):
         return r
     res = False
     todo, seen = [t], set()
+    biglit = strlen = False
     while todo:
         x = todo.pop()
         if x.get_id() in seen:
             continue
         seen.add(x.get_id())
+        if z3.is_int_value(x) and abs(x.as_long()) >= 64:
+            biglit = True
         if z3.is_app(x):
+            if x.decl().kind() == z3.Z3_OP_SEQ_LENGTH and (x.arg(0).sort() == Str or x.arg(0).sort() == Bytes):
+                strlen = True
+            if biglit and strlen:       # |s| against a large literal makes the sequence solver build long witnesses
+                res = True
+                break
             if x.sort() == Str and x.num_args() > 0 and x.decl().kind() != z3.Z3_OP_DT_ACCESSOR and x.decl().kind() != z3.Z3_OP_SELECT \
                     and x.decl().kind() != z3.Z3_OP_UNINTERPRETED and x.decl().kind() != z3.Z3_OP_ITE:
                 res = True
                 break
             dk = x.decl().kind()
+            if dk in (z3.Z3_OP_IDIV, z3.Z3_OP_MOD, z3.Z3_OP_DIV):
+                res = True
+                break
+            if dk in (z3.Z3_OP_INT2BV, z3.Z3_OP_BV2INT) or x.decl().name() in ("int2bv", "bv2int", "int_to_bv", "ubv_to_int"):
+                res = True
+                break
             if dk in (z3.Z3_OP_SEQ_PREFIX, z3.Z3_OP_SEQ_SUFFIX, z3.Z3_OP_SEQ_CONTAINS, z3.Z3_OP_SEQ_INDEX) and x.arg(0).sort() == Str:
                 res = True
                 break
@@ -378,6 +392,7 @@ def _stringy(t):
     return res
 
 
+FEASIBLE_RLIMIT = int(__import__("os").environ.get("VERIF_FEASIBLE_RLIMIT", "300000"))
 FEASIBLE_TIMEOUT_MS = int(__import__("os").environ.get("VERIF_FEASIBLE_MS", "400"))
 
 
@@ -388,6 +403,7 @@ def feasible(cs, timeout=None):
     cs = [c for c in cs if not _stringy(c)]       # string reasoning is slow: dropping constraints only over-approximates feasibility
     s = z3.Solver()
     s.set("timeout", timeout)
+    s.set("rlimit", FEASIBLE_RLIMIT)
     s.add(*cs)
     return s.check() != z3.unsat
 
